@@ -1233,7 +1233,7 @@ class Stack(list):
         :return bool:
         """
         # TODO: Check, add to Script/Transaction and add unittests
-        if not tx_locktime:
+        if tx_locktime is None:
             return False
         if sequence == 0xffffffff:
             return False
